@@ -1,5 +1,6 @@
 import Liquid.Basic
 import Liquid.Value
+import Liquid.Lookup
 /-!
 # Comparison, `contains` and boolean operators (property C09)
 
@@ -553,11 +554,13 @@ def containsW (w : Wrapper) (e : GoVal) : R Bool :=
     | .vals xs => containsList xs e
     | .items _ => .ok false   -- not reached (a MapSlice gets its own wrapper); `Equal(item, e)` is false
   | .map v => do
-    -- mapValue.Contains: the needle's dynamic type must be the map's key type
+    -- mapValue.Contains: the lookup of IndexValue (needle converted to the key type) finds an entry
     let (kt, kvs) ← mapView v
     if e.isNil then .ok false
-    else if keyTyOf e = some kt then (mapIndex kvs e).bind fun r => .ok r.isSome
-    else .ok false
+    else match GoVal.convertKey kt e with
+      | none => .unmodelled "map key conversion"
+      | some none => .ok false
+      | some (some k) => .ok (GoVal.mapFind kvs k).isSome
   | .string v =>
     -- stringValue.Contains (`sv.value.(string)`: every GoVal string has type `string`)
     match v with
